@@ -57,17 +57,24 @@ def selection(rng, J, R):
 
 def draw_inputs(c, rng, lo=-2, hi=2):
     """Arrays (float64 holding integers in lo..hi) of exactly the shapes the exported configuration lists."""
-    def arr(shape):
-        return rng.integers(lo, hi + 1, size=tuple(shape)).astype(np.float64)
-    inp = {"fs": [arr(s) for s in c["fshapes"]]}
+    def arr(shape, den=1):
+        return rng.integers(lo * den, hi * den + 1, size=tuple(shape)).astype(np.float64)
+    mixed = c.get("mix", "none") != "none"
+    dens = c["dens"] if mixed else [1] * len(c["fshapes"])
+    # integer numerators; the arrays handed to tensorly are numerator / den in the listed storage type (see fresh)
+    inp = {"fs": [arr(s, d) for s, d in zip(c["fshapes"], dens)]}
     op = c["op"]
+    if mixed:
+        inp.update(dens=list(dens), dtypes=list(c["dtypes"]), cden=int(c["cden"]), imk=int(c["imk"]))
+        if c["imk"] > 0:
+            inp["im"] = arr(c["fshapes"][c["imk"] - 1], dens[c["imk"] - 1])
     if op in ("cp", "p2"):
         inp["hasw"] = bool(c["hasw"])
         inp["w"] = arr([c["wlen"]]) if c["hasw"] else np.zeros(0)
     if op == "cp":
         inp["mask"] = rng.integers(0, 2, size=tuple(f[0] for f in c["fshapes"])).astype(np.float64)
     if op == "tucker":
-        inp["core"] = arr(c["coreshape"])
+        inp["core"] = arr(c["coreshape"], int(c["cden"]) if mixed else 1)
     if op == "p2":
         ps = []
         nfull = len(c["lens"])
@@ -98,6 +105,8 @@ def draw_inputs(c, rng, lo=-2, hi=2):
 
 def inputs_json(c, inp):
     out = {"fs": [jt(f) for f in inp["fs"]]}
+    if "im" in inp:
+        out["im"] = jt(inp["im"])
     if "hasw" in inp:
         out["hasw"] = inp["hasw"]
         out["w"] = [int(x) for x in inp["w"]]
@@ -113,6 +122,10 @@ def inputs_json(c, inp):
 
 def inputs_from_json(c, j):
     inp = {"fs": [as_float(f["data"]).reshape(f["shape"]) for f in j["fs"]]}
+    if c.get("mix", "none") != "none":
+        inp.update(dens=list(c["dens"]), dtypes=list(c["dtypes"]), cden=int(c["cden"]), imk=int(c["imk"]))
+    if "im" in j:
+        inp["im"] = as_float(j["im"]["data"]).reshape(j["im"]["shape"])
     if "hasw" in j:
         inp["hasw"] = j["hasw"]
         inp["w"] = as_float(j["w"])
@@ -129,10 +142,19 @@ def inputs_from_json(c, j):
 def fresh(op, inp):
     """The (tuple-form) factorised tensor built from fresh copies of the arrays."""
     fs = [f.copy() for f in inp["fs"]]
+    core = inp["core"].copy() if "core" in inp else None
+    if "dens" in inp:                      # mixed storage types: value = numerator / den, stored in the listed dtype
+        for k, (d, dt) in enumerate(zip(inp["dens"], inp["dtypes"])):
+            v = fs[k] / d
+            if inp.get("imk", 0) == k + 1:
+                v = v + 1j * (inp["im"] / d)
+            fs[k] = v.astype(dt)
+        if core is not None:
+            core = core / inp["cden"]
     if op == "cp":
         return (inp["w"].copy() if inp["hasw"] else None, fs)
     if op == "tucker":
-        return (inp["core"].copy(), fs)
+        return (core, fs)
     if op in ("tt", "tr", "ttm"):
         return fs
     if op == "p2":
@@ -191,7 +213,7 @@ NO_NORM = {"has": False, "fin0": False, "fin3": False, "q3": 0, "q0": 0}
 
 
 def blank_run(op):
-    r = {"rejected": False, "raised": False, "convert": False, "accepted": [], "exc": "", "exact": True, "dense": EMPTY_T, "unf": [], "vec": EMPTY_T,
+    r = {"rejected": False, "raised": False, "convert": False, "accepted": [], "exc": "", "exact": True, "dtype": "", "dense2": EMPTY_T, "dense": EMPTY_T, "unf": [], "vec": EMPTY_T,
          "shape": [], "rank": [], "norm": NO_NORM}
     if op == "cp":
         r["masked"] = EMPTY_T
@@ -231,6 +253,8 @@ def run_tucker_options(inp, how, skip, tr, modes):
             r["dense"] = T(dense)
             r["unf"] = [T(tl.tucker_to_unfolded(mk(), m, skip_factor=sk, transpose_factors=tr)) for m in range(np.ndim(dense))]
             r["vec"] = T(tl.tucker_to_vec(mk(), skip_factor=sk, transpose_factors=tr))
+        r["dense2"] = r["dense"]
+        r["dtype"] = str(np.asarray(dense).dtype)
         r["exact"] = exact[0]
     except Exception as ex:
         r2 = blank_run(op)
@@ -240,14 +264,34 @@ def run_tucker_options(inp, how, skip, tr, modes):
     return r
 
 
-def run_views(op, inp, how):
-    """how = "tuple": module-level functions on the tuple/list form; "object": the wrapper class and its methods."""
+def out_scale(inp):
+    sc = 1
+    for d in inp.get("dens", []):
+        sc *= d
+    return sc * inp.get("cden", 1)
+
+
+def run_views(op, inp, how, shared=False):
+    """how = "tuple": module-level functions on the tuple/list form; "object": the wrapper class and its methods.
+    shared = every conversion is called, in sequence, on ONE tuple / ONE object (otherwise on a fresh copy each)."""
     api = _api(op)
     r = blank_run(op)
     exact = [True]
+    scale = out_scale(inp)
+    cplx = inp.get("imk", 0) > 0
 
     def T(a):
-        j, ex = jt_exact(a)
+        a = np.asarray(a)
+        if cplx:
+            j, ex = jt_exact(np.real(a) * scale)
+            ji, exi = jt_exact(np.imag(a) * scale)
+            j["im"] = ji["data"]
+            ex = ex and exi
+        else:
+            if np.iscomplexobj(a):
+                exact[0] = exact[0] and bool(np.all(np.imag(a) == 0))
+                a = np.real(a)
+            j, ex = jt_exact(a * scale if scale != 1 else a)
         exact[0] = exact[0] and ex
         return j
 
@@ -268,11 +312,17 @@ def run_views(op, inp, how):
         r["shape"] = _shape_json(op, shape)
         r["rank"] = _rank_json(rank)
         obj = how == "object"
+        one = [None]
 
         def mk():
+            if shared:
+                if one[0] is None:
+                    one[0] = api["cls"](fresh(op, inp)) if obj else fresh(op, inp)
+                return one[0]
             return api["cls"](fresh(op, inp)) if obj else fresh(op, inp)
         dense = mk().to_tensor() if obj else api["to_tensor"](mk())
         r["dense"] = T(dense)
+        r["dtype"] = str(np.asarray(dense).dtype)
         nmodes = np.ndim(dense)
         unf = []
         for m in range(nmodes):
@@ -298,6 +348,7 @@ def run_views(op, inp, how):
             r["slice1"] = [T(api["to_slice"](mk(), i)) for i in range(len(inp["ps"]))]
             r["slices_nv"] = [T(s) for s in api["to_slices"](mk(), validate=False)]
             r["slice1_nv"] = [T(api["to_slice"](mk(), i, validate=False)) for i in range(len(inp["ps"]))]
+        r["dense2"] = T(mk().to_tensor() if obj else api["to_tensor"](mk()))
         r["exact"] = exact[0]
     except Exception as ex:
         r2 = blank_run(op)
